@@ -146,6 +146,13 @@ static const char* K2 = "values:double-output-with-automatic-scale-factor:scale-
 static const char* K3 = "values:unsigned-output-of-nonpositive-image-with-automatic-scale:write_data-fails-but-write_to_file-reports-success";
 static const char* K6 = "values:NM-modality-multi-dataset-interfile:data-offset-in-bytes-not-parsed-so-every-dataset-reads-the-first";
 
+static const char* K7 = "exam:single-image-with-several-time-frames-and-scale-factor-not-1:quantification-units-rejected-by-reader";
+static const char* K7_TEXT = "a single image whose exam information has more than one time frame, written with a scale factor other than 1 "
+                             "(integer output): write_basic_interfile_image_header announces N time frames but writes 'image scaling factor[1]' and "
+                             "'quantification units' for the one data set only; InterfileHeader::post_processing expects the scaling factor of all N "
+                             "data sets to equal 'quantification units', rejects the header, and read_interfile_image (which does not test for the "
+                             "null pointer) goes on with an uninitialised file name: read_from_file throws";
+static const char* K8 = "values:64-bit-integer-output-of-tiny-values:scale-factor-is-a-subnormal-float-and-loses-the-1.01-safety-margin";
 static const char* K6_TEXT = "write_basic_interfile_image_header writes '!type of data := Tomographic' for modality NM, for which "
                              "InterfileHeader::set_type_of_data does not register the key 'data offset in bytes' (KeyParser: unrecognized keyword); "
                              "read_interfile_dynamic_image / read_interfile_parametric_image then read every frame / parameter from offset 0";
@@ -596,11 +603,30 @@ oracle_geometry(const VoxelsOnCartesianGrid<float>& a, const DiscretisedDensity<
   check(bad == 0, "physical position of a voxel changed by the round trip (" + std::to_string(bad) + " coordinates, worst " + H(worst) + " mm)");
 }
 
-// values of one dataset.  raw = numbers stored in the file (empty if unavailable), s_hdr = scale factor in the header
-// returns false if a known-candidate class explains a failure (already reported)
+// does the dataset read back (`yv`) consist of the stored numbers `raw1` of the FIRST dataset of the file, decoded with
+// this dataset's own header scale factor?  (the class of K6: the reader ignores the data offsets)
+static bool
+reads_as_first_dataset(const TypeInfo& t, const std::vector<float>& yv, const std::vector<Raw>& raw1, double s_hdr)
+{
+  if (raw1.size() != yv.size() || yv.empty())
+    return false;
+  for (std::size_t i = 0; i < yv.size(); ++i)
+    {
+      const double stored = static_cast<double>(static_cast<float>(raw1[i].as_double())); // read_data converts to float
+      const double expect = t.integer || t.bytes == 8 ? stored * static_cast<double>(static_cast<float>(s_hdr)) : stored;
+      if (!(std::fabs(static_cast<double>(yv[i]) - expect) <= 4 * EPS_F * std::fabs(expect) + 1e-44))
+        return false;
+    }
+  return true;
+}
+
+// values of one dataset.  raw = numbers stored in the file (empty if unavailable), s_hdr = scale factor in the header.
+// k6_raw1 != nullptr: this is dataset > 1 of an Interfile multi-dataset file written for modality NM; *k6_raw1 are the
+// stored numbers of dataset 1.  The known finding K6 is reported (instead of a failure) ONLY when what was read back
+// is exactly dataset 1 (decoded with this dataset's scale factor); the numbers stored in the file are checked in any case.
 static void
 oracle_values(const TypeInfo& t, float given, const Array<3, float>& x, const Array<3, float>* y, const std::vector<Raw>& raw,
-              double s_hdr, bool expect_k6)
+              double s_hdr, const std::vector<Raw>* k6_raw1)
 {
   const long n = static_cast<long>(x.size_all());
   std::vector<float> xv(x.begin_all(), x.end_all());
@@ -614,7 +640,19 @@ oracle_values(const TypeInfo& t, float given, const Array<3, float>& x, const Ar
       all_zero = all_zero && v == 0;
       amax = std::max(amax, std::fabs(static_cast<double>(v)));
     }
-  long bad_round = 0, bad_trip = 0, bad_range = 0, bad_neg = 0, beyond_int = 0;
+  // a failure of the values read back is the known class K6 iff the reader returned dataset 1 instead
+  bool k6_reported = false;
+  auto trip_is_k6 = [&]() {
+    if (k6_reported)
+      return true;
+    if (k6_raw1 && y && reads_as_first_dataset(t, yv, *k6_raw1, s_hdr))
+      {
+        known_candidate(K6, K6_TEXT);
+        k6_reported = true;
+      }
+    return k6_reported;
+  };
+  long bad_round = 0, bad_trip = 0, bad_range = 0, bad_neg_raw = 0, bad_neg_trip = 0, beyond_int = 0, k1_bad = 0;
   if (!t.integer)
     {
       if (t.bytes == 4)
@@ -627,33 +665,37 @@ oracle_values(const TypeInfo& t, float given, const Array<3, float>& x, const Ar
               if (y && std::memcmp(&xv[i], &yv[i], 4) != 0)
                 ++bad_trip;
             }
-          if ((bad_round || bad_trip) && expect_k6)
-            {
-              known_candidate(K6, K6_TEXT);
-              return;
-            }
           check(s_hdr == 1., "float output written with a scale factor other than 1");
           check(bad_round == 0, "float output: stored numbers are not the voxel values");
-          check(bad_trip == 0, "float output: values not preserved exactly (" + std::to_string(bad_trip) + " voxels)");
+          if (!(bad_trip && trip_is_k6()))
+            check(bad_trip == 0, "float output: values not preserved exactly (" + std::to_string(bad_trip) + " voxels)");
           return;
         }
       // double output
+      bool y_all_zero = y != nullptr;
       for (long i = 0; i < n; ++i)
-        if (y && !(std::fabs(static_cast<double>(yv[i]) - xv[i]) <= (4 * EPS_F + EPS_FMT) * std::fabs(static_cast<double>(xv[i]))))
-          ++bad_trip;
-      if (bad_trip && expect_k6)
         {
-          known_candidate(K6, K6_TEXT);
-          return;
+          if (y && !(std::fabs(static_cast<double>(yv[i]) - xv[i]) <= (4 * EPS_F + EPS_FMT) * std::fabs(static_cast<double>(xv[i]))))
+            ++bad_trip;
+          if (y && yv[i] != 0)
+            y_all_zero = false;
+          // stored double * header scale factor = value (the quotient is formed in binary32, the header has 6 digits)
+          if (!raw.empty() && s_hdr != 0.
+              && !(std::fabs(raw[i].r * s_hdr - xv[i]) <= (4 * EPS_F + EPS_FMT) * std::fabs(static_cast<double>(xv[i])) + 1e-44))
+            ++bad_round;
         }
-      if (bad_trip && given == 0.F && !all_zero)
-        {
+      if (given == 0.F && !all_zero && s_hdr == 0. && (y_all_zero || !y))
+        { // exactly the class of K2: automatic scale, scale factor 0 in the header, zeros come back
           known_candidate(K2, "DOUBLE output with scale_to_write_data=0: find_scale_factor computes max/DBL_MAX*1.01, which is 0 as a float; "
                               "convert_range then takes the 'data contains only 0' branch and writes zeros (image max "
                                   + H(amax) + " read back as 0)");
           return;
         }
-      check(bad_trip == 0, "double output: values not preserved (" + std::to_string(bad_trip) + " voxels)");
+      check(s_hdr != 0. || all_zero, "double output: scale factor 0 written for an image that is not all zero");
+      check(bad_round == 0, "double output: stored numbers times the header's scale factor are not the voxel values ("
+                                + std::to_string(bad_round) + " voxels)");
+      if (!(bad_trip && trip_is_k6()))
+        check(bad_trip == 0, "double output: values not preserved (" + std::to_string(bad_trip) + " voxels)");
       return;
     }
   // scaled integer output
@@ -663,11 +705,16 @@ oracle_values(const TypeInfo& t, float given, const Array<3, float>& x, const Ar
       for (float v : xv)
         nothing_representable = nothing_representable && (t.sgn ? v == 0 : v <= 0);
       check(nothing_representable, "scale factor 0 written for an image that has non-zero representable values");
-      if (y)
-        for (long i = 0; i < n; ++i)
-          if (yv[i] != 0)
+      long bad_raw0 = 0;
+      for (long i = 0; i < n; ++i)
+        {
+          if (y && yv[i] != 0)
             ++bad_trip;
-      check(bad_trip == 0, "all-zero image not read back as zero");
+          if (!raw.empty() && raw[i].as_double() != 0)
+            ++bad_raw0;
+        }
+      check(bad_raw0 == 0, "scale factor 0 in the header but non-zero numbers stored");
+      check(bad_trip == 0, "all-zero image not read back as zero"); // (0 * anything: also true when dataset 1 was read instead)
       return;
     }
   const double s = s_hdr;
@@ -676,37 +723,56 @@ oracle_values(const TypeInfo& t, float given, const Array<3, float>& x, const Ar
       const double xi = xv[i];
       if (!t.sgn && xi < 0)
         { // negative -> 0 for unsigned
-          if ((!raw.empty() && raw[i].as_double() != 0) || (y && yv[i] != 0))
-            ++bad_neg;
+          if (!raw.empty() && raw[i].as_double() != 0)
+            ++bad_neg_raw;
+          if (y && yv[i] != 0)
+            ++bad_neg_trip;
           continue;
         }
       const double ideal = xi / s;
       const double slack = (EPS_FMT + 4 * EPS_F) * std::fabs(ideal);
-      if (std::fabs(ideal) + 0.5 >= 2147483648.)
-        ++beyond_int;
       if (!(ideal <= t.maxv + 0.5 + slack && ideal >= t.minv - 0.5 - slack))
         ++bad_range;
-      if (!raw.empty() && !(std::fabs(raw[i].as_double() - ideal) <= 0.5 + slack + 4 * EPS_F))
+      const bool round_ok = raw.empty() || std::fabs(raw[i].as_double() - ideal) <= 0.5 + slack + 4 * EPS_F;
+      const bool trip_ok = !y || std::fabs(static_cast<double>(yv[i]) - xi) <= std::fabs(s) / 2 + (EPS_FMT + 8 * EPS_F) * std::fabs(xi) + 1e-44;
+      // K1 concerns exactly the voxels whose quotient value/scale does not fit stir::round's return type int
+      // (quotient known here up to the 6 digits of the header's scale factor and binary32 rounding)
+      if (std::fabs(ideal) + slack + 0.5 >= 2147483648.)
+        {
+          ++beyond_int;
+          if (!round_ok || !trip_ok)
+            ++k1_bad;
+          continue;
+        }
+      if (!round_ok)
         ++bad_round;
-      if (y && !(std::fabs(static_cast<double>(yv[i]) - xi) <= std::fabs(s) / 2 + (EPS_FMT + 8 * EPS_F) * std::fabs(xi) + 1e-44))
+      if (!trip_ok)
         ++bad_trip;
     }
-  if ((bad_round || bad_trip || bad_neg) && expect_k6)
-    { // a dataset read from the wrong offset: any of the value checks may fail
-      known_candidate(K6, K6_TEXT);
-      return;
-    }
-  if ((bad_round || bad_trip) && beyond_int)
+  if (k1_bad)
+    known_candidate(K1, std::string("convert_range rounds with stir::round(float), which returns int: for ") + t.tag
+                            + " output the quotient value/scale reaches 2^31 and the conversion overflows (" + std::to_string(k1_bad) + " of "
+                            + std::to_string(beyond_int) + " such voxels stored or read back wrong; every other voxel is checked)");
+  if (beyond_int)
+    g_cover["values:voxels-with-quotient-beyond-int32"] += beyond_int;
+  if (t.maxv > 2147483647.)
+    g_cover["values:voxels-of-uint-long-ulong-output-checked-strictly"] += n - beyond_int;
+  if (bad_range && std::fabs(s) < 1.17549435e-38)
+    // the float scale factor is subnormal: it has lost the precision that the safety factor 1.01 relies on
+    known_candidate(K8, std::string("find_scale_factor returns the scale factor as a float: for ") + t.tag + " output of values around " + H(amax)
+                            + " it is subnormal (" + H(s) + "), its rounding error exceeds the safety factor 1.01 and value/scale lies outside the type's range ("
+                            + std::to_string(bad_range) + " voxels)");
+  else
+    check(bad_range == 0, "scaled integer output overflows the chosen type (" + std::to_string(bad_range) + " voxels: value/scale outside the type's range, scale "
+                              + H(s) + ")");
+  check(bad_neg_raw == 0, "negative value not stored as 0 for unsigned output");
+  check(bad_round == 0, "stored integer is not the rounded quotient value/scale (" + std::to_string(bad_round)
+                            + " voxels whose quotient fits an int)");
+  if (!((bad_trip || bad_neg_trip) && trip_is_k6()))
     {
-      known_candidate(K1, std::string("convert_range rounds with stir::round(float), which returns int: for ") + t.tag
-                              + " output the quotient value/scale reaches 2^31 and the conversion overflows (" + std::to_string(bad_round)
-                              + " stored numbers, " + std::to_string(bad_trip) + " voxels read back wrong)");
-      return;
+      check(bad_neg_trip == 0, "negative value not read back as 0 for unsigned output");
+      check(bad_trip == 0, "value not preserved within half a quantisation step (" + std::to_string(bad_trip) + " voxels whose quotient fits an int)");
     }
-  check(bad_range == 0, "scaled integer output overflows the chosen type (" + std::to_string(bad_range) + " voxels: value/scale outside the type's range)");
-  check(bad_neg == 0, "negative value not truncated to 0 for unsigned output");
-  check(bad_round == 0, "stored integer is not the rounded quotient value/scale (" + std::to_string(bad_round) + " voxels)");
-  check(bad_trip == 0, "value not preserved within half a quantisation step (" + std::to_string(bad_trip) + " voxels)");
 }
 
 static std::string
@@ -739,20 +805,28 @@ close_rel(double a, double b, double rel, double abs_ = 0)
   return std::fabs(a - b) <= rel * std::max(std::fabs(a), std::fabs(b)) + abs_;
 }
 
-// exam information: before vs after, and the `exam` operation for the model
+// exam information: before vs after, and the exam operation `op` for the model:
+//   "exam"      the header's exam information (dynamic / parametric Interfile image)
+//   "exams"     a single image: read_interfile_image keeps the first time frame only
+//   "examf <f>" member f of a dynamic Interfile image: the header's exam information with time frame f alone
+//   ""          no operation
+// a_hdr = exam information that was written to the header (differs from `a` for "examf": all frames)
 static void
-exam_checks(const ExamInfo& a, const ExamInfo& b, bool emit_op)
+exam_checks(const ExamInfo& a, const ExamInfo& b, const std::string& op_name, const ExamInfo* a_hdr = nullptr)
 {
-  if (emit_op)
+  const bool single_reader = op_name == "exams";
+  if (!op_name.empty())
     {
+      const ExamInfo& w = a_hdr ? *a_hdr : a;
       // what RadionuclideDB answers for the name the reader will look up
-      const Radionuclide ra = a.get_radionuclide();
+      const Radionuclide ra = w.get_radionuclide();
       const bool written_name = !ra.get_name().empty() && ra.get_name() != "Unknown";
       RadionuclideDB db;
-      const Radionuclide rdb = db.get_radionuclide(a.imaging_modality, written_name ? ra.get_name() : std::string(""));
-      std::string op = "exam " + exam_line(a) + " " + H(rdb.get_half_life(false)) + " " + H(rdb.get_branching_ratio(false)) + " "
-                       + frames_str(a.time_frame_definitions);
+      const Radionuclide rdb = db.get_radionuclide(w.imaging_modality, written_name ? ra.get_name() : std::string(""));
+      std::string op = op_name + " " + exam_line(w) + " " + H(rdb.get_half_life(false)) + " " + H(rdb.get_branching_ratio(false)) + " "
+                       + frames_str(w.time_frame_definitions);
       emit(op, exam_line(b) + " " + frames_str(b.time_frame_definitions));
+      g_cover["examop:" + op_name.substr(0, op_name.find(' '))]++;
     }
   const long fails_before = g_fails;
   check(a.imaging_modality == b.imaging_modality, "imaging modality changed by the round trip");
@@ -774,9 +848,17 @@ exam_checks(const ExamInfo& a, const ExamInfo& b, bool emit_op)
         g_cover["exam:window-with-lower-threshold-0"]++;
     }
   const TimeFrameDefinitions &fa = a.time_frame_definitions, &fb = b.time_frame_definitions;
+  const bool first_frame_only = single_reader && fa.get_num_frames() > 1;
   if (fa.get_num_frames() == 0)
     check(fb.get_num_frames() == 0 || (fb.get_num_frames() == 1 && fb.get_start_time(1) == 0 && fb.get_end_time(1) == 0),
           "time frames appeared from nowhere");
+  else if (first_frame_only)
+    { // documented behaviour of read_interfile_image ("Only the first will be kept"): a DiscretisedDensity is one frame
+      g_cover["exam:single-image-with-several-time-frames"]++;
+      check(fb.get_num_frames() == 1 && close_rel(fa.get_start_time(1), fb.get_start_time(1), EPS_FMT, 1e-9)
+                && close_rel(fa.get_end_time(1), fb.get_end_time(1), 2 * EPS_FMT, 1e-9),
+            "single image written with several time frames: the first one is not what is read back");
+    }
   else
     {
       bool ok = fa.get_num_frames() == fb.get_num_frames();
@@ -803,7 +885,7 @@ exam_checks(const ExamInfo& a, const ExamInfo& b, bool emit_op)
                               && std::fabs(ra.get_energy(false) - rb.get_energy(false)) <= 0.05
                               && !(a.get_high_energy_thres() > 0 && a.get_low_energy_thres() < 0)
                               && !(a.get_high_energy_thres() <= 0 && a.get_low_energy_thres() > 0);
-  if (all_fields_ok && everything_set)
+  if (all_fields_ok && everything_set && !first_frame_only)
     {
       g_cover["exam:operator=="]++;
       check(a == b, "ExamInfo::operator== says the exam information differs although every field survived");
@@ -941,15 +1023,18 @@ can_read(const std::string& header)
     }
 }
 
-// fault stream: truncate the data file at a sample of lengths; read_from_file must report an error
-template <class DataT>
+// fault stream: truncate one data file at a sample of lengths; read_from_file must report an error.
+//   marks      = byte positions of interest in this file (starts of the data sets)
+//   need       = number of bytes the header(s) announce for this file (last offset + size of a data set)
+//   need_k6    = -1, or (K6: the reader takes every data set from offset 0) the length from which the reader succeeds
+//   op_of_len  = the operation line for the model, given the length of the file
+template <class DataT, class OpOfLen>
 static void
-truncation_stream(vh::Rng& rng, const std::string& header, const std::string& datafile, long offset_last, long size_all, int bytes,
-                  bool thorough)
+truncation_stream(vh::Rng& rng, const std::string& header, const std::string& datafile, const std::vector<long>& marks, long need,
+                  long need_k6, int bytes, bool thorough, OpOfLen op_of_len)
 {
   const std::string full = read_bytes(datafile);
   const long L = static_cast<long>(full.size());
-  const long need = offset_last + size_all * bytes;
   std::set<long> lens;
   if (L <= (thorough ? 400 : 48))
     for (long l = 0; l <= L; ++l)
@@ -961,8 +1046,18 @@ truncation_stream(vh::Rng& rng, const std::string& header, const std::string& da
       lens.insert(L - 1);
       lens.insert(L);
       lens.insert(need - 1);
-      lens.insert(offset_last);
-      lens.insert(offset_last + bytes);
+      lens.insert(need - bytes);
+      for (long m : marks)
+        {
+          lens.insert(m);
+          lens.insert(m - 1);
+          lens.insert(m + bytes);
+        }
+      if (need_k6 >= 0)
+        {
+          lens.insert(need_k6 - 1);
+          lens.insert(need_k6);
+        }
       for (int k = 0; k < (thorough ? 24 : 6); ++k)
         lens.insert(rng.range(0, static_cast<int>(L)));
     }
@@ -974,10 +1069,14 @@ truncation_stream(vh::Rng& rng, const std::string& header, const std::string& da
       std::string cut = l <= L ? full.substr(0, static_cast<std::size_t>(l)) : full + std::string(static_cast<std::size_t>(l - L), '\0');
       write_bytes(datafile, cut);
       const bool ok = can_read<DataT>(header);
-      emit("trunc " + std::to_string(offset_last) + " " + std::to_string(size_all) + " " + std::to_string(bytes) + " " + std::to_string(l),
-           ok ? "ok" : "err");
+      emit(op_of_len(l), ok ? "ok" : "err");
       if (l < need)
-        check(!ok, "data file truncated to " + std::to_string(l) + " of " + std::to_string(need) + " bytes was returned as an image");
+        {
+          if (ok && need_k6 >= 0 && l >= need_k6)
+            known_candidate(K6, K6_TEXT); // every data set was taken from offset 0: a file holding one data set is "complete"
+          else
+            check(!ok, "data file truncated to " + std::to_string(l) + " of " + std::to_string(need) + " bytes was returned as an image");
+        }
       else
         check(ok, "complete data file rejected");
       g_cover[l < need ? "trunc:short" : "trunc:complete"]++;
@@ -992,7 +1091,8 @@ single_case(vh::Rng& rng, const std::string& dir, long idx, int type_idx, bool l
   const TypeInfo& t = TYPES[type_idx];
   const Geo g = gen_geo(rng, thorough ? 12 : 9);
   const bool no_frames = rng.range(0, 9) == 0;
-  ExamSpec es = gen_exam(rng, 1);
+  // (a DiscretisedDensity is one time frame; frame definitions with several frames can nevertheless be attached and are written)
+  ExamSpec es = gen_exam(rng, rng.range(0, 3) == 0 ? rng.range(2, 3) : 1);
   if (no_frames)
     es.frames.clear();
   shared_ptr<ExamInfo> ex = make_exam(es, 0);
@@ -1069,6 +1169,12 @@ single_case(vh::Rng& rng, const std::string& dir, long idx, int type_idx, bool l
     {
       rd = read_from_file<DiscretisedDensity<3, float>>(hname);
     }
+  catch (std::exception& e)
+    {
+      if (std::getenv("C10_DEBUG"))
+        std::fprintf(stderr, "read exception [%s]: %s\n", g_ctx.c_str(), e.what());
+      rd.reset();
+    }
   catch (...)
     {
       rd.reset();
@@ -1088,6 +1194,8 @@ single_case(vh::Rng& rng, const std::string& dir, long idx, int type_idx, bool l
                             "gives a non-positive scale, the per-row check |new-scale| > scale*0.001 in write_data_with_fixed_scale_factor_help "
                             "fails, write_basic_interfile ignores the Succeeded::no and writes the header: write_to_file reports success, the data "
                             "file is short and read_from_file fails");
+      else if (!short_file && !rd && es.frames.size() > 1 && s_hdr != 1.)
+        known_candidate(K7, K7_TEXT);
       else
         {
           check(!short_file, "data file shorter than the header announces after a successful write_to_file");
@@ -1097,14 +1205,16 @@ single_case(vh::Rng& rng, const std::string& dir, long idx, int type_idx, bool l
   if (rd)
     {
       oracle_geometry(*im, *rd, &h);
-      oracle_values(t, given, *im, rd.get(), raw, s_hdr, false);
-      exam_checks(im->get_exam_info(), rd->get_exam_info(), true);
+      oracle_values(t, given, *im, rd.get(), raw, s_hdr, nullptr);
+      exam_checks(im->get_exam_info(), rd->get_exam_info(), "exams");
     }
   else
     oracle_geometry(*im, *im, &h); // header keys only
   // ---- fault stream
   if (rd && !short_file && (idx % 3 == 0 || n * t.bytes <= 48))
-    truncation_stream<DiscretisedDensity<3, float>>(rng, hname, dname, 0, n, t.bytes, thorough);
+    truncation_stream<DiscretisedDensity<3, float>>(rng, hname, dname, std::vector<long>(1, 0L), n * t.bytes, -1, t.bytes, thorough, [&](long l) {
+      return "trunc 0 " + std::to_string(n) + " " + std::to_string(t.bytes) + " " + std::to_string(l);
+    });
   remove_files(base);
 }
 
@@ -1116,16 +1226,56 @@ multi_params(const std::string& inner)
          + "End Multi Output File Format Parameters:=\n";
 }
 
+// value distribution of a member of a container: every kind of the single images
+static int
+gen_member_kind(vh::Rng& rng)
+{
+  static const int ORDINARY[] = { 0, 1, 4, 5, 9, 10 };
+  static const int CORNER[] = { 2, 3, 6, 7, 8 }; // all-zero, all-negative, huge, tiny, non-positive
+  return rng.range(0, 2) == 0 ? CORNER[rng.range(0, 4)] : ORDINARY[rng.range(0, 5)];
+}
+
+// the output file format object for a container, set up in one of four ways
+//   how 0: setters (Interfile formats only)            how 1: parse() of a parameter block
+//   how 2: registry, by registered name + parameters   how 3: OutputFileFormat<DataT>::default_sptr() / write_to_file()
+template <class DataT, class InterfileFormatT, class MultiFormatT>
+static shared_ptr<OutputFileFormat<DataT>>
+make_container_format(bool multi, int how, const TypeInfo& t, bool little, float given)
+{
+  const std::string params = multi ? multi_params(interfile_params(t, little, given)) : interfile_params(t, little, given);
+  shared_ptr<OutputFileFormat<DataT>> fmt;
+  if (how == 3)
+    return OutputFileFormat<DataT>::default_sptr();
+  if (how == 2)
+    {
+      std::istringstream in(params);
+      fmt.reset(OutputFileFormat<DataT>::read_registered_object(&in, multi ? "Multi" : "Interfile"));
+      check(!is_null_ptr(fmt), "output file format not found in the registry under its registered name");
+      return fmt;
+    }
+  if (multi)
+    {
+      shared_ptr<MultiFormatT> m(new MultiFormatT);
+      std::istringstream in(params);
+      check(m->parse(in), "multi output file format parameters rejected");
+      return m;
+    }
+  shared_ptr<InterfileFormatT> f(new InterfileFormatT);
+  check(configure(*f, t, little, given, how == 1), "output file format parameters rejected");
+  return f;
+}
+
 static void
-container_case(vh::Rng& rng, const std::string& dir, long idx, bool parametric, bool multi, int type_idx, int scale_setting, bool thorough)
+container_case(vh::Rng& rng, const std::string& dir, long idx, bool parametric, bool multi, int type_idx, bool little_req, int scale_setting,
+               int first_kind, bool thorough)
 {
   const TypeInfo& t = TYPES[type_idx];
   const Geo g = gen_geo(rng, thorough ? 8 : 6);
-  const int nsets = parametric ? 2 : rng.range(2, 3);
+  const int nsets = parametric ? 2 : rng.range(2, thorough ? 4 : 3);
   ExamSpec es = gen_exam(rng, parametric ? 1 : nsets);
   if (es.start_time == 0 && rng.coin())
     es.start_time = 1277478034.;
-  const bool little = ByteOrder::get_native_order() == ByteOrder::little_endian; // containers: native order only
+  const bool native_little = ByteOrder::get_native_order() == ByteOrder::little_endian;
   const std::string base = dir + "/" + (parametric ? "p" : "d") + (multi ? "m" : "i") + std::to_string(idx);
   // the datasets
   std::vector<shared_ptr<VoxelsOnCartesianGrid<float>>> sets;
@@ -1133,20 +1283,34 @@ container_case(vh::Rng& rng, const std::string& dir, long idx, bool parametric, 
   for (int f = 1; f <= nsets; ++f)
     {
       shared_ptr<VoxelsOnCartesianGrid<float>> im = make_image(g, make_exam(es, parametric ? 0 : f));
-      const int kind = rng.range(0, 9) == 0 ? 2 : rng.range(0, 1) ? 1 : (rng.coin() ? 0 : 5);
+      const int kind = f == 1 && first_kind >= 0 ? first_kind : gen_member_kind(rng);
       fill_values(rng, kind, *im);
       sets.push_back(im);
       kinds.push_back(kind);
+      g_cover[std::string("ckind:") + KIND_NAMES[kind]]++;
     }
-  const float given = gen_scale(rng, t, *sets[0], scale_setting);
-  char cfg[256];
-  std::snprintf(cfg, sizeof cfg, "cfg %s-%s %s scale=%s sets=%d modality=%d case=%ld", parametric ? "parametric" : "dynamic",
-                multi ? "multi" : "interfile", t.tag, H(given).c_str(), nsets, es.modality, idx);
+  const float given = gen_scale(rng, t, *sets[rng.range(0, nsets - 1)], scale_setting);
+  int how = rng.range(0, 3);
+  if (how == 3 && !(t.id == NumericType::FLOAT && little_req == native_little && given == 0.F))
+    how = rng.range(0, 2);
+  if (how == 0 && multi)
+    how = 1; // the Multi formats have no setter for the format of the members
+  // with how == 3 and Multi the default format of the members is used: Interfile, float, native order
+  const bool multi_by_default_members = how == 3 && multi;
+  char cfg[300];
+  std::snprintf(cfg, sizeof cfg, "cfg %s-%s %s %s scale=%s sets=%d modality=%d how=%d case=%ld", parametric ? "parametric" : "dynamic",
+                multi ? "multi" : "interfile", t.tag, little_req ? "le" : "be", H(given).c_str(), nsets, es.modality, how, idx);
   g_ctx = cfg;
   emit(cfg, "ok");
   g_cover[std::string(parametric ? "container:parametric-" : "container:dynamic-") + (multi ? "multi" : "interfile")]++;
   g_cover[std::string("ctype:") + t.tag]++;
+  g_cover[little_req ? "cbyteorder:little" : "cbyteorder:big"]++;
+  g_cover["chow:" + std::to_string(how)]++;
+  g_cover["cscale-setting:" + std::to_string(scale_setting)]++;
 
+  // the byte order the format says it will use: the Interfile container formats are "currently fixed to the native format"
+  // (set_byte_order says so and returns the order used); the members of a Multi image are written as asked
+  const bool little_expected = multi ? little_req : native_little;
   shared_ptr<DynamicDiscretisedDensity> dyn;
   shared_ptr<ParametricVoxelsOnCartesianGrid> par;
   std::string fname = base;
@@ -1159,19 +1323,39 @@ container_case(vh::Rng& rng, const std::string& dir, long idx, bool parametric, 
               sets[0]->get_exam_info_sptr(), sets[0]->get_index_range(), sets[0]->get_origin(), sets[0]->get_grid_spacing())));
           for (int f = 1; f <= nsets; ++f)
             par->update_parametric_image(*sets[f - 1], f);
-          if (multi)
+          const ParametricVoxelsOnCartesianGrid par_before(*par);
+          if (how == 3 && !multi && rng.coin())
             {
-              MultiParametricDiscretisedDensityOutputFileFormat<ParametricVoxelsOnCartesianGridBaseType> fmt;
-              std::istringstream in(multi_params(interfile_params(t, little, given)));
-              check(fmt.parse(in), "multi output file format parameters rejected");
-              ws = fmt.write_to_file(fname, *par);
+              fname = write_to_file(base, *par);
+              ws = Succeeded::yes;
             }
           else
             {
-              InterfileParametricDiscretisedDensityOutputFileFormat<ParametricVoxelsOnCartesianGridBaseType> fmt;
-              check(configure(fmt, t, little, given, rng.coin()), "output file format parameters rejected");
-              ws = fmt.write_to_file(fname, *par);
+              shared_ptr<OutputFileFormat<ParametricVoxelsOnCartesianGrid>> fmt
+                  = multi_by_default_members
+                        ? shared_ptr<OutputFileFormat<ParametricVoxelsOnCartesianGrid>>(
+                            new MultiParametricDiscretisedDensityOutputFileFormat<ParametricVoxelsOnCartesianGridBaseType>)
+                        : make_container_format<ParametricVoxelsOnCartesianGrid,
+                                                InterfileParametricDiscretisedDensityOutputFileFormat<ParametricVoxelsOnCartesianGridBaseType>,
+                                                MultiParametricDiscretisedDensityOutputFileFormat<ParametricVoxelsOnCartesianGridBaseType>>(
+                            multi, how, t, little_req, given);
+              if (!is_null_ptr(fmt))
+                {
+                  if (how != 3)
+                    {
+                      if (!multi) // (a Multi format keeps the number type in the format of its members)
+                        check(fmt->get_type_of_numbers() == NumericType(t.id), "container output file format does not keep the requested number type");
+                      if (!multi)
+                        check((fmt->get_byte_order() == ByteOrder::little_endian) == little_expected,
+                              "Interfile container format reports another byte order than the native one it is fixed to");
+                    }
+                  ws = fmt->write_to_file(fname, *par);
+                }
             }
+          bool same = true;
+          for (int f = 1; f <= nsets && same; ++f)
+            same = par->construct_single_density(f) == par_before.construct_single_density(f);
+          check(same, "writing modified the parametric image");
         }
       else
         {
@@ -1187,19 +1371,35 @@ container_case(vh::Rng& rng, const std::string& dir, long idx, bool parametric, 
           }
           for (int f = 1; f <= nsets; ++f)
             dyn->set_density(*sets[f - 1], f);
-          if (multi)
+          if (how == 3 && !multi && rng.coin())
             {
-              MultiDynamicDiscretisedDensityOutputFileFormat fmt;
-              std::istringstream in(multi_params(interfile_params(t, little, given)));
-              check(fmt.parse(in), "multi output file format parameters rejected");
-              ws = fmt.write_to_file(fname, *dyn);
+              fname = write_to_file(base, *dyn);
+              ws = Succeeded::yes;
             }
           else
             {
-              InterfileDynamicDiscretisedDensityOutputFileFormat fmt;
-              check(configure(fmt, t, little, given, rng.coin()), "output file format parameters rejected");
-              ws = fmt.write_to_file(fname, *dyn);
+              shared_ptr<OutputFileFormat<DynamicDiscretisedDensity>> fmt
+                  = multi_by_default_members
+                        ? shared_ptr<OutputFileFormat<DynamicDiscretisedDensity>>(new MultiDynamicDiscretisedDensityOutputFileFormat)
+                        : make_container_format<DynamicDiscretisedDensity, InterfileDynamicDiscretisedDensityOutputFileFormat,
+                                                MultiDynamicDiscretisedDensityOutputFileFormat>(multi, how, t, little_req, given);
+              if (!is_null_ptr(fmt))
+                {
+                  if (how != 3)
+                    {
+                      if (!multi) // (a Multi format keeps the number type in the format of its members)
+                        check(fmt->get_type_of_numbers() == NumericType(t.id), "container output file format does not keep the requested number type");
+                      if (!multi)
+                        check((fmt->get_byte_order() == ByteOrder::little_endian) == little_expected,
+                              "Interfile container format reports another byte order than the native one it is fixed to");
+                    }
+                  ws = fmt->write_to_file(fname, *dyn);
+                }
             }
+          bool same = true;
+          for (int f = 1; f <= nsets && same; ++f)
+            same = dyn->get_density(f) == *sets[f - 1];
+          check(same, "writing modified the dynamic image");
         }
     }
   catch (...)
@@ -1217,6 +1417,7 @@ container_case(vh::Rng& rng, const std::string& dir, long idx, bool parametric, 
       cleanup();
       return;
     }
+  check(fname == base + (multi ? ".txt" : ".hv"), "write_to_file does not return the name of the file to read");
   // read back
   shared_ptr<DynamicDiscretisedDensity> rdyn;
   shared_ptr<ParametricVoxelsOnCartesianGrid> rpar;
@@ -1245,40 +1446,60 @@ container_case(vh::Rng& rng, const std::string& dir, long idx, bool parametric, 
   std::vector<std::vector<Raw>> raws(nsets);
   std::vector<double> s_hdrs(nsets, 1.);
   std::vector<long> offsets(nsets, 0);
-  Hdr h_first;
   std::vector<Hdr> hdrs(nsets);
-  std::vector<std::string> s_strs;
-  std::string data_of_last;
+  std::vector<std::string> s_strs, dnames;
   for (int f = 1; f <= nsets; ++f)
     {
       const std::string hname = multi ? base + "_" + std::to_string(f) + ".hv" : base + ".hv";
       const std::string dname = multi ? base + "_" + std::to_string(f) + ".v" : base + ".v";
       const Hdr h = parse_header(hname);
-      if (f == 1)
-        h_first = h;
       hdrs[f - 1] = h;
       const std::string key = multi ? "1" : std::to_string(f);
       const std::string s_str = hget(h, "imagescalingfactor[" + key + "]", "1");
       s_hdrs[f - 1] = std::strtod(s_str.c_str(), nullptr);
       offsets[f - 1] = multi ? 0 : static_cast<long>(hnum(h, "dataoffsetinbytes[" + key + "]", 0));
-      if (!multi)
-        check(offsets[f - 1] == (f - 1) * n * t.bytes || k3_possible, "data offset of a dataset is not the sum of the sizes of the previous ones");
+      // the header announces what was asked for, and the byte order the format said it would use
+      check(hget(h, "numberformat") == t.number_format && hnum(h, "numberofbytesperpixel", -1) == t.bytes,
+            "header announces another number type than requested");
+      check(hget(h, "imagedatabyteorder") == (little_expected ? "LITTLEENDIAN" : "BIGENDIAN"),
+            "container header announces another byte order than the format reports");
+      const bool file_little = hget(h, "imagedatabyteorder") == "LITTLEENDIAN";
       const std::string bytes = read_bytes(dname);
-      raws[f - 1] = decode_all(t, bytes, offsets[f - 1], n, little);
+      raws[f - 1] = decode_all(t, bytes, offsets[f - 1], n, file_little);
       // the data file must hold exactly what the header(s) announce
       if (raws[f - 1].empty() || static_cast<long>(bytes.size()) != (multi ? 1 : nsets) * n * t.bytes)
         any_short = true;
-      check(hget(h, "numberformat") == t.number_format && hnum(h, "numberofbytesperpixel", -1) == t.bytes,
-            "header announces another number type than requested");
       emit_fsf(t, given, *sets[f - 1]);
       s_strs.push_back(s_str);
-      data_of_last = dname;
+      dnames.push_back(dname);
+    }
+  // data offsets announced in the header of an Interfile container = running sum of the data set sizes
+  if (!multi && !k3_possible)
+    {
+      std::string offs;
+      for (int f = 1; f <= nsets; ++f)
+        offs += (f > 1 ? " " : "") + std::to_string(offsets[f - 1]);
+      emit("offs " + std::to_string(nsets) + " " + std::to_string(n) + " " + std::to_string(t.bytes), offs);
+      for (int f = 1; f <= nsets; ++f)
+        check(offsets[f - 1] == (f - 1) * n * t.bytes, "data offset of a dataset is not the sum of the sizes of the previous ones");
     }
   // (if the data file does not have the announced size the datasets cannot be located in it: no `conv` operations then)
   if (!any_short)
     for (int f = 1; f <= nsets; ++f)
       emit_conv(t, given, *sets[f - 1], rowlen, s_strs[f - 1], raws[f - 1]);
-  emit_whdr_rhdr(g, h_first, read_ok ? (parametric ? nullptr : &rdyn->get_density(1)) : nullptr);
+  // geometry keys of every header, and the geometry of every member read back
+  for (int f = 1; f <= (multi ? nsets : 1); ++f)
+    {
+      if (!read_ok)
+        emit_whdr_rhdr(g, hdrs[f - 1], nullptr);
+      else if (parametric)
+        {
+          const VoxelsOnCartesianGrid<float> rs = rpar->construct_single_density(f);
+          emit_whdr_rhdr(g, hdrs[f - 1], &rs);
+        }
+      else if (static_cast<unsigned>(f) <= rdyn->get_num_time_frames())
+        emit_whdr_rhdr(g, hdrs[f - 1], &rdyn->get_density(f));
+    }
   if (any_short || !read_ok)
     {
       if (k3_possible)
@@ -1292,6 +1513,7 @@ container_case(vh::Rng& rng, const std::string& dir, long idx, bool parametric, 
       cleanup();
       return;
     }
+  // K6 (known finding) can only concern data sets > 1 of an Interfile container written for modality NM
   const bool k6 = !multi && es.modality == ImagingModality::NM;
   if (parametric)
     {
@@ -1300,36 +1522,104 @@ container_case(vh::Rng& rng, const std::string& dir, long idx, bool parametric, 
         {
           const VoxelsOnCartesianGrid<float> rs = rpar->construct_single_density(f);
           oracle_geometry(*sets[f - 1], rs, &hdrs[f - 1]);
-          oracle_values(t, given, *sets[f - 1], &rs, raws[f - 1], s_hdrs[f - 1], k6 && f > 1);
+          oracle_values(t, given, *sets[f - 1], &rs, raws[f - 1], s_hdrs[f - 1], k6 && f > 1 ? &raws[0] : nullptr);
+          // every member: the full exam information (the members of a parametric image share the container's)
+          exam_checks(sets[f - 1]->get_exam_info(), rs.get_exam_info(), multi && f == 1 ? "exams" : "");
         }
-      exam_checks(par->get_exam_info(), rpar->get_exam_info(), !multi);
+      exam_checks(par->get_exam_info(), rpar->get_exam_info(), multi ? "" : "exam");
     }
   else
     {
       check(rdyn->get_num_time_frames() == static_cast<unsigned>(nsets), "number of time frames changed");
       if (rdyn->get_num_time_frames() == static_cast<unsigned>(nsets))
-        for (int f = 1; f <= nsets; ++f)
-          {
-            const DiscretisedDensity<3, float>& rs = rdyn->get_density(f);
-            oracle_geometry(*sets[f - 1], rs, &hdrs[f - 1]);
-            oracle_values(t, given, *sets[f - 1], &rs, raws[f - 1], s_hdrs[f - 1], k6 && f > 1);
-            // each frame carries its own time frame
-            const TimeFrameDefinitions& tf = rs.get_exam_info().time_frame_definitions;
-            check(tf.get_num_frames() == 1 && close_rel(tf.get_start_time(1), es.frames[f - 1].first, EPS_FMT, 1e-9)
-                      && close_rel(tf.get_end_time(1), es.frames[f - 1].second, 2 * EPS_FMT, 1e-9),
-                  "time frame of a frame of a dynamic image changed by the round trip");
-          }
-      exam_checks(dyn->get_exam_info(), rdyn->get_exam_info(), !multi);
+        {
+          for (int f = 1; f <= nsets; ++f)
+            {
+              const DiscretisedDensity<3, float>& rs = rdyn->get_density(f);
+              oracle_geometry(*sets[f - 1], rs, &hdrs[f - 1]);
+              oracle_values(t, given, *sets[f - 1], &rs, raws[f - 1], s_hdrs[f - 1], k6 && f > 1 ? &raws[0] : nullptr);
+              // every member: modality, patient position, radionuclide, energy window, calibration factor and its own time frame
+              if (multi)
+                exam_checks(sets[f - 1]->get_exam_info(), rs.get_exam_info(), "exams");
+              else
+                exam_checks(sets[f - 1]->get_exam_info(), rs.get_exam_info(), "examf " + std::to_string(f), &dyn->get_exam_info());
+            }
+          if (multi)
+            { // the container's exam information is assembled from the members read back
+              std::string op = "examm " + exam_line(rdyn->get_density(1).get_exam_info()) + " " + std::to_string(nsets);
+              for (int f = 1; f <= nsets; ++f)
+                {
+                  const TimeFrameDefinitions& tf = rdyn->get_density(f).get_exam_info().time_frame_definitions;
+                  op += " " + H(tf.get_num_frames() >= 1 ? tf.get_start_time(1) : 0.) + " " + H(tf.get_num_frames() >= 1 ? tf.get_end_time(1) : 0.);
+                }
+              emit(op, exam_line(rdyn->get_exam_info()) + " " + frames_str(rdyn->get_exam_info().time_frame_definitions));
+            }
+        }
+      exam_checks(dyn->get_exam_info(), rdyn->get_exam_info(), multi ? "" : "exam");
     }
-  // fault stream on the last data file (not where the data offsets are ignored anyway, see K6)
-  if (idx % 2 == 0 && !k6)
+  // fault stream: every data file of the container
+  if (idx % 2 == 0)
     {
-      if (parametric)
-        truncation_stream<ParametricVoxelsOnCartesianGrid>(rng, fname, data_of_last, offsets[nsets - 1], n, t.bytes, thorough);
-      else
-        truncation_stream<DynamicDiscretisedDensity>(rng, fname, data_of_last, offsets[nsets - 1], n, t.bytes, thorough);
+      for (int f = 1; f <= (multi ? nsets : 1); ++f)
+        {
+          std::vector<long> marks;
+          long need, need_k6 = -1;
+          if (multi)
+            {
+              marks.push_back(0);
+              need = n * t.bytes;
+            }
+          else
+            {
+              marks = offsets;
+              need = offsets[nsets - 1] + n * t.bytes;
+              if (k6)
+                need_k6 = n * t.bytes;
+            }
+          auto op_of_len = [&](long l) {
+            std::string op;
+            if (multi)
+              {
+                op = "mtrunc " + std::to_string(n) + " " + std::to_string(t.bytes);
+                for (int k = 1; k <= nsets; ++k)
+                  op += " " + std::to_string(k == f ? l : file_size(dnames[k - 1]));
+              }
+            else
+              {
+                op = std::string("ctrunc ") + (k6 ? "1" : "0") + " " + std::to_string(n) + " " + std::to_string(t.bytes) + " " + std::to_string(l);
+                for (int k = 1; k <= nsets; ++k)
+                  op += " " + std::to_string(offsets[k - 1]);
+              }
+            return op;
+          };
+          g_cover[multi ? "trunc-file:multi-member" : (k6 ? "trunc-file:interfile-container-NM" : "trunc-file:interfile-container")]++;
+          if (parametric)
+            truncation_stream<ParametricVoxelsOnCartesianGrid>(rng, fname, dnames[f - 1], marks, need, need_k6, t.bytes, thorough, op_of_len);
+          else
+            truncation_stream<DynamicDiscretisedDensity>(rng, fname, dnames[f - 1], marks, need, need_k6, t.bytes, thorough, op_of_len);
+        }
     }
   cleanup();
+}
+
+// the output file formats registered in this build, per data type (COVER lines; exercised: Interfile, Multi)
+template <class DataT>
+static void
+list_registry(const std::string& what)
+{
+  std::ostringstream o;
+  OutputFileFormat<DataT>::list_registered_names(o);
+  std::istringstream in(o.str());
+  std::string name;
+  while (std::getline(in, name))
+    {
+      std::string k;
+      for (char c : name)
+        if (c != ' ' && c != '\t' && c != '\r')
+          k += c;
+      if (!k.empty())
+        g_cover["registry:" + what + ":" + k] = 1;
+    }
 }
 
 // ------------------------------------------------------------------------------------------------ main
@@ -1375,12 +1665,21 @@ main(int argc, char** argv)
   for (int rep = 0; rep < (thorough ? 4 : 1); ++rep)
     for (int ti = 0; ti < 10; ++ti)
       single_case(rng, dir, idx++, ti, rep % 2 == 0, 4, 10, thorough);
-  // containers
-  const int creps = thorough ? 12 : 2;
+  // containers: every NumericType x requested ByteOrder x container format, scale settings and value kinds cycled / random
+  const int creps = thorough ? 8 : 2;
   for (int rep = 0; rep < creps; ++rep)
     for (int ti = 0; ti < 10; ++ti)
-      for (int c = 0; c < 4; ++c)
-        container_case(rng, dir, idx++, c & 1, c & 2, ti, (rep + ti + c) % 4, thorough);
+      for (int bo = 0; bo < 2; ++bo)
+        for (int c = 0; c < 4; ++c)
+          {
+            const int ss = (rep + ti + c + 2 * bo) % 5;
+            // the first member's value distribution: cycle through all kinds, later repetitions random
+            const int first_kind = rep == 0 ? (ss == 4 ? 10 : (ti + 3 * c + 5 * bo) % 10) : (ss == 4 ? 10 : -1);
+            container_case(rng, dir, idx++, c & 1, c & 2, ti, bo == 0, ss, first_kind, thorough);
+          }
+  list_registry<DiscretisedDensity<3, float>>("image");
+  list_registry<DynamicDiscretisedDensity>("dynamic");
+  list_registry<ParametricVoxelsOnCartesianGrid>("parametric");
 
   ::rmdir(dir.c_str());
   ::rmdir(outdir.c_str()); // only succeeds if no other run is using it
